@@ -56,8 +56,10 @@ func genCfg(r *Rng) *handCfg {
 		c.hole, c.req = 4, 2
 	} else if r.Chance(0.1) {
 		// unusual hole-card rules the engine accepts as well
-		c.hole = 1 + r.Intn(4)
-		c.req = r.Intn(c.hole + 1)
+		// (a single-card hand can have strength 0 — a lone deuce — which the showdown cannot tell
+		// from a folded hand; rules that evaluate fewer than two cards are left out)
+		c.hole = 2 + r.Intn(3)
+		c.req = []int{0, 2, c.hole}[r.Intn(3)]
 		if n*c.hole+8 > len(deck) {
 			c.hole, c.req = 2, 2
 		}
